@@ -144,6 +144,38 @@ Proof.
   - exact ge_mp_function1.
 Qed.
 
+(* one entry per objective: the single-objective functions return 1 value, the two-objective ones 2, for every input *)
+Theorem C20_one_entry_per_objective : forall (x : list R) a c lambda,
+  length (bm_plane x) = 1%nat /\
+  length (bm_sphere x) = 1%nat /\
+  length (bm_cigar x) = 1%nat /\
+  length (bm_rosenbrock x) = 1%nat /\
+  length (bm_h1 x) = 1%nat /\
+  length (bm_ackley x) = 1%nat /\
+  length (bm_bohachevsky x) = 1%nat /\
+  length (bm_griewank x) = 1%nat /\
+  length (bm_rastrigin x) = 1%nat /\
+  length (bm_rastrigin_scaled x) = 1%nat /\
+  length (bm_rastrigin_skew x) = 1%nat /\
+  length (bm_schaffer x) = 1%nat /\
+  length (bm_schwefel x) = 1%nat /\
+  length (bm_himmelblau x) = 1%nat /\
+  length (bm_shekel x a c) = 1%nat /\
+  length (bm_kursawe x) = 2%nat /\
+  length (bm_schaffer_mo x) = 2%nat /\
+  length (bm_zdt1 x) = 2%nat /\
+  length (bm_zdt2 x) = 2%nat /\
+  length (bm_zdt3 x) = 2%nat /\
+  length (bm_zdt4 x) = 2%nat /\
+  length (bm_zdt6 x) = 2%nat /\
+  length (bm_fonseca x) = 2%nat /\
+  length (bm_poloni x) = 2%nat /\
+  length (bm_dent x lambda) = 2%nat.
+Proof.
+  intros x a c lambda. rewrite ge_plane, ge_sphere, ge_cigar, ge_rosenbrock, ge_h1, ge_ackley, ge_bohachevsky, ge_griewank, ge_rastrigin, ge_rastrigin_scaled, ge_rastrigin_skew, ge_schaffer, ge_schwefel, ge_himmelblau, ge_shekel, ge_kursawe, ge_schaffer_mo, ge_zdt1, ge_zdt2, ge_zdt3, ge_zdt4, ge_zdt6, ge_fonseca, ge_poloni, ge_dent.
+  repeat apply conj; reflexivity.
+Qed.
+
 (* one entry per objective for the scalable family *)
 Theorem C20_dtlz_one_entry_per_objective : forall (x : list R) M alpha, (2 <= M)%Z -> (M - 1 <= zlen x)%Z ->
   length (bm_dtlz1 x M) = Z.to_nat M /\ length (bm_dtlz2 x M) = Z.to_nat M /\
@@ -159,8 +191,8 @@ Qed.
 
 (* section 1 -- conjunction of the theorems above; carries the Print Assumptions of this group
    (one call per group: each call costs about 1.7 s) *)
-Theorem C20_sec1_published : ltac:(let t := type of (conj C20_continuous_are_published (conj C20_multiobjective_are_published (conj C20_gp_are_published (conj C20_binary_are_published (conj C20_peaks_are_published C20_dtlz_one_entry_per_objective))))) in exact t).
-Proof. exact (conj C20_continuous_are_published (conj C20_multiobjective_are_published (conj C20_gp_are_published (conj C20_binary_are_published (conj C20_peaks_are_published C20_dtlz_one_entry_per_objective))))). Qed.
+Theorem C20_sec1_published : ltac:(let t := type of (conj C20_continuous_are_published (conj C20_multiobjective_are_published (conj C20_gp_are_published (conj C20_binary_are_published (conj C20_peaks_are_published (conj C20_one_entry_per_objective C20_dtlz_one_entry_per_objective)))))) in exact t).
+Proof. exact (conj C20_continuous_are_published (conj C20_multiobjective_are_published (conj C20_gp_are_published (conj C20_binary_are_published (conj C20_peaks_are_published (conj C20_one_entry_per_objective C20_dtlz_one_entry_per_objective)))))). Qed.
 Print Assumptions C20_sec1_published.
 
 (* ================================================================================================ *)
